@@ -8,31 +8,72 @@ from . import builtins_ as B
 
 class ExternMixin:
     # ---------------------------------------------------------------- X-OS: open / write / close on the ghost disk
+    def disk_exists(self):
+        """X-OS: whether the target path names a file.  Unknown at entry (a non-existing file has no content); true after any open for writing."""
+        g = self.st.ghost
+        if 'disk_exists' not in g:
+            e = self.sym('disk_exists', BOOL)
+            self.assume(z3.Implies(z3.Not(e), z3.Length(self.as_seq(g['disk'])) == 0))
+            g['disk_exists'] = VB(e)
+        return g['disk_exists']
+
     def open_file(self, args, node):
         mode = args[1] if len(args) > 1 else VC('r')
         if mode.k != 'const':
             raise Unsupported('open() with symbolic mode')
         if 'disk' not in self.st.ghost:
             raise Unsupported('open(): contract declares no ghost disk')
-        if mode.t == 'wb':
+        m = ''.join(sorted(mode.t.replace('b', '')))
+        if m in ('w', '+w'):
             self.st.ghost['disk'] = SV('bytes', z3.Empty(SEQ))      # truncation
-        elif mode.t == 'ab':
-            pass
+            pos = VI(0)
+        elif m in ('a', '+a'):
+            pos = None                                              # every write goes to the end
+        elif m == '+r':
+            if not self.branch(self.disk_exists().t):
+                raise PyRaise('FileNotFoundError', 'open r+')
+            pos = VI(0)                                             # content kept, position at the start
         else:
             raise Unsupported(f'open mode {mode.t}')
+        self.st.ghost['disk_exists'] = VB(True)
         self.st.ghost['n_opens'] = VI(self.as_int(self.st.ghost.get('n_opens', VI(0))) + 1)
-        return SV('obj', self.st.alloc(HObj('__file__', {'mode': mode, 'name': args[0]})))
+        return SV('obj', self.st.alloc(HObj('__file__', {'mode': mode, 'name': args[0], 'pos': pos if pos is not None else NONE})))
 
     def close_file(self, h, node):
         pass
 
     def file_write(self, f, args):
-        self.st.ghost['disk'] = SV('bytes', z3.Concat(self.as_seq(self.st.ghost['disk']), self.as_seq(args[0])))
-        return VI(z3.Length(self.as_seq(args[0])))
+        disk, b = self.as_seq(self.st.ghost['disk']), self.as_seq(args[0])
+        pos = self.st.heap[f.t].f.get('pos', NONE) if f is not None and f.k == 'obj' else NONE
+        if pos.k == 'none':
+            self.st.ghost['disk'] = SV('bytes', z3.Concat(disk, b))
+            return VI(z3.Length(b))
+        p = self.as_int(pos)
+        if z3.is_int_value(z3.simplify(p)) and z3.simplify(p).as_long() == 0 and z3.is_app(disk) and disk.decl().kind() == z3.Z3_OP_SEQ_EMPTY:
+            self.st.ghost['disk'] = SV('bytes', b)                  # the common case (fresh 'wb' file) without extract terms
+        else:
+            if self.branch(z3.Or(p < 0, p > z3.Length(disk))):
+                raise Unsupported('write beyond the end of the file (zero fill) / negative position')
+            tail_from = p + z3.Length(b)
+            tail = z3.If(tail_from < z3.Length(disk), z3.Extract(disk, tail_from, z3.Length(disk) - tail_from), z3.Empty(SEQ))
+            self.st.ghost['disk'] = SV('bytes', z3.Concat(z3.Extract(disk, 0, p), b, tail))
+        self.st.heap[f.t].f['pos'] = VI(p + z3.Length(b))
+        return VI(z3.Length(b))
+
+    def file_seek(self, f, args):
+        if len(args) != 1:
+            raise Unsupported('seek with whence')
+        h = self.st.heap[f.t]
+        if h.f.get('pos', NONE).k == 'none':
+            return VI(self.as_int(args[0]))                          # append mode: writes ignore the position
+        h.f['pos'] = VI(self.as_int(args[0]))
+        return h.f['pos']
 
     def getattr_value(self, base, name, node=None, default=None):
         if base.k == 'obj' and self.st.heap[base.t].cls == '__file__' and name == 'write':
             return SV('func', FuncVal(builtin='filewrite', bound=base, name='write'))
+        if base.k == 'obj' and self.st.heap[base.t].cls == '__file__' and name == 'seek':
+            return SV('func', FuncVal(builtin='fileseek', bound=base, name='seek'))
         return super().getattr_value(base, name, node, default)
 
     def bi_next(self, args, kw, node):
@@ -57,6 +98,8 @@ class ExternMixin:
     def call_builtin(self, f, args, kw, node=None):
         if f.builtin == 'filewrite':
             return self.file_write(f.bound, args)
+        if f.builtin == 'fileseek':
+            return self.file_seek(f.bound, args)
         return super().call_builtin(f, args, kw, node)
 
     # specification vocabulary
@@ -221,7 +264,14 @@ class ExternMixin:
     def ext_iinfo(self, args, kw, node):
         return SV('const', ('iinfo', args[0].t.name if args[0].k == 'const' else None))
 
+    def ext_path_exists(self, args, kw, node):
+        if 'disk' not in self.st.ghost:
+            raise Unsupported('os.path.exists: contract declares no ghost disk')
+        return self.disk_exists()
+
     externals = {'re.compile': lambda self, args, kw, node: self.ext_re_compile(args, kw, node),
+                 'os.path.exists': lambda self, args, kw, node: self.ext_path_exists(args, kw, node),
+                 'os.path.isfile': lambda self, args, kw, node: self.ext_path_exists(args, kw, node),
                  'np.random.randint': lambda self, args, kw, node: self.ext_rng(args, kw, node),
                  'datetime.now': lambda self, args, kw, node: self.ext_now(args, kw, node),
                  'np.iinfo': lambda self, args, kw, node: self.ext_iinfo(args, kw, node),
